@@ -233,7 +233,7 @@ def enclosing_statement(vfile, line):
 ALLOWED_AXIOMS = set()   # none: every theorem is expected to be closed
 
 
-def build_property(ctx, regenerate=None):
+def build_property(ctx, regenerate=None, extra_targets=()):
     """Steps 1-3 of a check: regenerate translated files, build Props/<id>.vo from
     scratch (so that Print Assumptions is re-evaluated), hygiene on its cone.
     Records one obligation per Theorem. Returns True when everything checked."""
@@ -256,6 +256,7 @@ def build_property(ctx, regenerate=None):
     targets = [vfile + "o"]
     if os.path.exists(os.path.join(COQ, f"Check/{prop}.v")):
         targets.append(f"Check/{prop}.vo")
+    targets += list(extra_targets)
     ok, out = coq_make(targets)
     ctx.checker_cmd = f"make -C coq -j{NCPU} {vfile}o   (coq_makefile -f _CoqProject; coqc 8.16.1)"
     files = cone(vfile)
